@@ -378,6 +378,11 @@ ENCODINGS = [
     ("ints 0/1", lambda v: v), ("ints 3/7", lambda v: 3 if v == 0 else 7), ("strings", lambda v: "neg" if v == 0 else "pos"),
     ("bools", lambda v: bool(v)), ("floats", lambda v: 0.25 if v == 0 else 0.75), ("minus/plus one", lambda v: -1 if v == 0 else 1),
     ("three classes", None),
+    # class names of unequal length, one a proper prefix of the other (fixed-width string dtypes must not truncate one to the other)
+    ("prefix strings", lambda v: "cat" if v == 0 else "cats"),
+    # the two members of a pair arrive with different numeric types: agreeing pairs (k, float(k)), disagreeing pairs (k, k + 0.5)
+    ("int label / float prediction", "mixed"),
+    ("numbered class names", "numbered"),
 ]
 
 
@@ -394,6 +399,16 @@ def check_agreement_only(scn):
             a = int(rng.randint(0, 3))
             b = a if yt == yp else (a + 1 + int(rng.randint(0, 2))) % 3
             return ("c%d" % a, "c%d" % b)
+        if f == "mixed":
+            k = int(rng.randint(0, 5))
+            if i % 2:
+                return (k, float(k)) if yt == yp else (k, k + 0.5)
+            return (float(k), k) if yt == yp else (k + 0.5, k)
+        if f == "numbered":
+            # twelve classes "class0" .. "class11": "class1" is a prefix of "class10" and "class11"
+            a = int(rng.randint(0, 12))
+            b = a if yt == yp else [1, 10, 11, 0, 2][(([1, 10, 11, 0, 2].index(a) + 1) % 5) if a in (1, 10, 11, 0, 2) else 0]
+            return (("class%d" % a, "class%d" % b) if i % 2 else ("class%d" % b, "class%d" % a)) if yt != yp else ("class%d" % a, "class%d" % a)
         a_, b_ = f(yt), f(yp)
         # the two labels of a pair may arrive in different (one-element) containers: only agreement matters
         wrap = scn.get("wrap", 0)
@@ -456,7 +471,9 @@ THRESHOLDS = {
     "DDM": [("drift_scale", 3.0, 1.0), ("drift_scale", 1.5, 0.8)],
     "EDDM": [("drift_thresh", 0.85, 0.93), ("drift_thresh", 0.5, 0.9)],
     "STEPD": [("alpha_drift", 0.01, 0.2), ("alpha_drift", 0.05, 0.1)],
-    "LinearFourRates": [("detect_level", 0.02, 0.2)],
+    # (levels above 0.5 are legal: the lower percentile bound then lies above the upper one and nearly everything alarms -
+    # the loosest settings; the order must hold across the whole range, also across 0.5)
+    "LinearFourRates": [("detect_level", 0.02, 0.2), ("detect_level", 0.4, 0.9), ("detect_level", 0.55, 0.75), ("detect_level", 0.1, 0.6)],
     "KdqTreeStreaming": [("alpha", 0.02, 0.4)], "KdqTreeBatch": [("alpha", 0.02, 0.4), ("alpha", 0.004, 0.2)],
     # (NNDVI: also close pairs under larger numbers of re-assignments - the critical value must be monotone in alpha
     # however it is estimated)
@@ -468,7 +485,7 @@ THRESHOLDS = {
 WARNINGS = {
     "DDM": [("warning_scale", 2.0, 0.3)], "EDDM": [("warning_thresh", 0.9, 0.99)],
     "STEPD": [("alpha_warning", 0.02, 0.4), ("alpha_warning", 0.0001, 0.2)],
-    "LinearFourRates": [("warning_level", 0.05, 0.4)],
+    "LinearFourRates": [("warning_level", 0.05, 0.4), ("warning_level", 0.4, 0.9), ("warning_level", 0.55, 0.8)],
 }
 
 
@@ -563,7 +580,17 @@ def check_row_order(scn):
     kw = {"levels": tuple(scn["levels"])} if scn.get("levels") else {}
     st = C.stream(name, seed, n, vary_rows=False, blocky=bool(scn.get("blocky")), **kw)
     rng = np.random.RandomState(seed + 77)
-    st2 = [(b[0].iloc[rng.permutation(len(b[0]))].reset_index(drop=True),) for b in st]
+    idx = scn.get("index")
+    if idx:
+        # row labels that are not unique (frames stitched together with pd.concat, repeated timestamps): the labels are
+        # no part of the data, a batch is its rows whatever they are called
+        st = [(b[0].set_axis(np.arange(len(b[0])) // 3, axis=0),) for b in st]
+    if idx == "travel":
+        st2 = [(b[0].iloc[rng.permutation(len(b[0]))],) for b in st]                 # labels move with their rows
+    elif idx == "stay":
+        st2 = [(b[0].iloc[rng.permutation(len(b[0]))].set_axis(b[0].index, axis=0),) for b in st]
+    else:
+        st2 = [(b[0].iloc[rng.permutation(len(b[0]))].reset_index(drop=True),) for b in st]
     decisions = scn.get("decisions", True)
     out = []
     for stream in (st, st2):
